@@ -43,7 +43,7 @@ def one_case(rec, tap, rng, cid):
     spec = fitlab.draw_curve_spec(
         rng, models=["hertz_para", "hertz_cone", "sneddon_spher_approx",
                      "hertz_pyr3s"],
-        npts=(120, 300, 800, 1500), noise_snr=(0, 0, 100, 30))
+        npts=(40, 120, 300, 800, 1500), noise_snr=(0, 0, 100, 30))
     idnt, truth = fitlab.build_curve(spec)
     p0, ek = fitlab.initial_params(rng, spec, truth)
     seg = int(rng.integers(2))
@@ -84,6 +84,9 @@ def one_case(rec, tap, rng, cid):
         kw["range_x"] = [a, b]
     else:
         ns = int(rng.integers(7, 26))
+        if xs.size <= 130 and rng.random() < .6:
+            # more scan samples than data points in the segment
+            ns = int(rng.integers(xs.size // 2, 2 * xs.size))
         a = pick()
         kw.update(optimal_fit_edelta=True, optimal_fit_num_samples=ns,
                   range_x=[a if np.isfinite(a) else 0.0,
